@@ -92,6 +92,9 @@ def scen_chunk(args):
             try:
                 rnd = random.Random(f"{seed}-{si}")
                 m = scen.Mat(sc, base, seed=0, plain=True)
+                # a symbolic link whose extension belongs to another language family than its target's
+                os.makedirs(os.path.join(m.root, "inc"), exist_ok=True)
+                os.symlink(os.path.join("..", "src", "m1.c"), os.path.join(m.root, "inc", "alias.F90"))
                 byp = scen.ents_by_plat(sc)
                 plats = sorted(byp)
                 dbs = {}
@@ -132,7 +135,7 @@ def scen_chunk(args):
                     if rc != 0:
                         errs.append(f"cbi-tree exited {rc}: {err[-200:]}")
                     else:
-                        errs += C06.check_tree(out, rep["tree"], plats, "tree")
+                        errs += C06.check_tree(out, rep["tree"], plats, "tree", links=[("inc", "alias.F90")])
                     p0 = plats[0]
                     covp = os.path.join(base, f"cov_{scanorder}_{hs}.json")
                     stats["evals"] += 1
@@ -148,7 +151,13 @@ def scen_chunk(args):
                                 if rel not in cov or set(cov[rel]["used_lines"]) != exp[p0][fid] or \
                                         set(cov[rel]["unused_lines"]) != m.all_lines(fid) - exp[p0][fid]:
                                     errs.append(f"coverage export of {rel} differs from the expectation")
-                        if len(cov) != len([1 for f, p in m.paths.items() if p.startswith(os.path.realpath(m.root) + os.sep)]):
+                        # the link is listed as well, with its target's (one physical file's) partition
+                        lk = os.path.join("inc", "alias.F90")
+                        tfid = "src/m1.c"
+                        if lk not in cov or set(cov[lk]["used_lines"]) != exp[p0][tfid] or \
+                                set(cov[lk]["unused_lines"]) != m.all_lines(tfid) - exp[p0][tfid]:
+                            errs.append(f"coverage export of the link {lk} differs from its target's partition")
+                        if len(cov) != 1 + len([1 for f, p in m.paths.items() if p.startswith(os.path.realpath(m.root) + os.sep)]):
                             errs.append(f"coverage export lists {sorted(cov)}")
                     if errs:
                         fails.append(dict(layer="G", tags=sorted(tags), symptom="result-depends-on-schedule",
